@@ -59,8 +59,12 @@ Definition get_input_shortage (all_in all_out : value) (fee : N) : result bool :
     end in
   Ok (ada_short || asset_short).
 
+(* has_assets (since /repo "fix: add_change_if_needed treats a change value whose asset quantities are all zero as
+   ADA-only change"): some quantity above zero — the test the packing loop runs on.  Before: at least one policy. *)
+Definition ma_positive (a : multiasset) : bool :=
+  match ma_partial_cmp a ma_new with Some Gt => true | _ => false end.
 Definition has_assets (m : option multiasset) : bool :=
-  match m with Some a => 0 <? ma_len a | None => false end.
+  match m with Some a => ma_positive a | None => false end.
 
 (* stable insertion sort by a numeric key (Vec::sort_by_key is stable) *)
 Fixpoint insert_by {A} (key : A -> N) (x : A) (l : list A) : list A :=
@@ -260,12 +264,12 @@ Section Change.
       | 0%nat => lift OutOfFuel
       | S fuel' =>
           letM nft_changes := pack_nfts_for_change change_left in
-          match nft_changes with
-          | [] => lift Err
-          | _ =>
-              letM r := change_outputs_loop addr extra nft_changes change_left new_fee in
-              change_while_loop fuel' addr extra (fst r) (snd r)
-          end
+          (* every pass has to take some asset out of change_left (since /repo "fix: the change loop fails when a
+             pass packs no asset"; before: only an empty list was refused) *)
+          if existsb ma_positive nft_changes then
+            letM r := change_outputs_loop addr extra nft_changes change_left new_fee in
+            change_while_loop fuel' addr extra (fst r) (snd r)
+          else lift Err
       end
     else ret (change_left, new_fee).
 
